@@ -215,7 +215,6 @@ func (p *Polynomial) Evaluate(x interface{}) (y *Complex) {
 		xcmplx[1].Mul(xcmplx[1], scalar)
 
 		xcmplx[0].Add(xcmplx[0], constant)
-		xcmplx[1].Add(xcmplx[1], constant)
 
 		TPrev := &Complex{new(big.Float).SetInt64(1), new(big.Float)}
 
